@@ -95,7 +95,8 @@ TOLERANCES = {
                                  "sqrt(1+|conv|) * |W|_F * max|x| / |b|), the first-order propagation of a relative error in x. A case is compared only if two reference "
                                  "evaluations with different summation order (sequential loops vs. vectorised) agree to 1e-12 * "
                                  "scale and on the iteration count (measured conditioning, 100x margin); otherwise it is labelled "
-                                 "inconclusive:ill_conditioned. A stop decision closer to conv_tol than 1000 x the measured difference of the "
+                                 "inconclusive:ill_conditioned. A stop decision closer to conv_tol than 1e-10 x the a-priori error scale of the "
+                                 "convergence numbers, or than 1000 x the measured difference of the "
                                  "convergence numbers between the two summation orders (+ 1e-12 relative) is labelled "
                                  "inconclusive:stop_ambiguous",
     "scale": "every tolerance is relative to the magnitudes of the case (|C|, |x|, |d|, largest iterate, summed update terms), so it "
@@ -754,7 +755,13 @@ def _certify_sart(ctx, W, b, L, x0, variant, prm, x, conv, call_no, structural):
         ctx.label("inconclusive:ill_conditioned")
         return None
     # stop decision |conv[k] - conv[k-1]| < conv_tol: ambiguous when it is closer to conv_tol than the rounding noise of the
-    # convergence numbers, measured as 1000 x the difference between the two summation orders plus 1e-12 relative
+    # convergence numbers.  (a) a-priori: 1e-10 x the first-order error scale of conv (ref_sart: u |W| max|x| propagated into
+    # 1 - |W x|^2/|b|^2) - needed when the iterate is orders of magnitude below an earlier one (e.g. guess 5, |b| 1e-15: the
+    # cancellation x0 - x0 leaves noise u*|x0| ~ |x|, different in every evaluation order, and the two reference orders can
+    # agree by luck); (b) measured: 1000 x the difference between the two summation orders plus 1e-12 relative
+    if ia["margin_bad"] or ib["margin_bad"]:
+        ctx.label("inconclusive:stop_ambiguous")
+        return None
     for k in range(1, len(ca)):
         noise = 1e3 * (abs(ca[k] - cb[k]) + abs(ca[k - 1] - cb[k - 1])) + 1e-12 * (1.0 + abs(ca[k]) + abs(ca[k - 1]))
         if tol > 0 and abs(abs(ca[k] - ca[k - 1]) - tol) <= noise:
